@@ -50,7 +50,7 @@ def cases(draw):
         st.tuples(st.just("read"), pos, length),
         st.tuples(st.just("reopen")),
     ).map(list), min_size=1, max_size=8))
-    return {"observer": draw(st.booleans()), "fmt": draw(st.sampled_from(["sdmf", "mdmf", "mdmf"])), "k": k, "n": n, "seg": seg, "size0": draw(length), "ops": ops,
+    return {"hsalt": draw(st.integers(0, 15)), "observer": draw(st.booleans()), "fmt": draw(st.sampled_from(["sdmf", "mdmf", "mdmf"])), "k": k, "n": n, "seg": seg, "size0": draw(length), "ops": ops,
             "sched": draw(st.lists(st.integers(0, 9), max_size=draw(st.sampled_from([0, 40, 300])))), "threads": draw(st.sampled_from(["sync", "async", "async"]))}
 
 
